@@ -13,7 +13,7 @@ if ! git apply "$PATCH" 2>/tmp/seed_apply_err; then echo "SEED $P: patch does no
 TESTS=$(/venv/bin/python -m pytest -q -p no:cacheprovider 2>&1 | tail -1)
 SEEDED=$(PYTHONPATH=$S /venv/bin/python "$DEMO" >/dev/null 2>&1; echo $?)
 echo "SEED $P $(basename $PATCH): demo clean=$CLEAN seeded=$SEEDED ; tests: $TESTS"
-cd /verif
+cd ${VERIF_DIR:-/verif}
 for C in $CHECKS; do
   OUT=$(VERIF_REPO=$S timeout 1500 ./check $C 2>&1)
   RC=$?
@@ -22,4 +22,4 @@ for C in $CHECKS; do
   echo "   check $C: exit=$RC violations=$V no-failing-input=$NF :: $(echo "$OUT" | grep "^\[$C\]" | tail -1)"
 done
 rm -rf $S
-python3 /verif/tools/translate.py >/dev/null 2>&1
+python3 ${VERIF_DIR:-/verif}/tools/translate.py >/dev/null 2>&1
